@@ -159,8 +159,9 @@ class ExprMixin:
         elem = a.elem
         arr = fresh('cat', z3.ArraySort(I, sort_of(elem)))
         i = z3.Int('i!cat')
-        st.assume(z3.ForAll([i], z3.Implies(z3.And(0 <= i, i < a.n), arr[i] == a.arr[i])),
-                  z3.ForAll([i], z3.Implies(z3.And(0 <= i, i < b.n), arr[a.n + i] == b.arr[i])))
+        st.assume(z3.ForAll([i], z3.Implies(z3.And(0 <= i, i < a.n), arr[i] == a.arr[i]), patterns=[arr[i]]),
+                  z3.ForAll([i], z3.Implies(z3.And(a.n <= i, i < a.n + b.n), arr[i] == b.arr[i - a.n]), patterns=[arr[i]]),
+                  z3.ForAll([i], z3.Implies(z3.And(0 <= i, i < b.n), arr[a.n + i] == b.arr[i]), patterns=[b.arr[i]]))
         res = SeqV(elem, arr, a.n + b.n)
         self.seq_lemmas(res, a, a.n, st)
         for f in self.reg.specfuns.values():
@@ -404,8 +405,21 @@ class ExprMixin:
         return q, m
 
     def str_format(self, l, r, st, node):
-        # '%..' % args : opaque, injectivity not assumed. A function of the operands.
         args = [tuple_get(r, i) for i in range(len(r.ty.args))] if (not isinstance(r, SeqV) and r.ty.kind == 'tuple') else [r]
+        lz = z3.simplify(l.z)
+        if z3.is_string_value(lz) and all((not isinstance(a, SeqV)) and a.ty.kind == 'str' for a in args):
+            # a literal format with only %s directives and str arguments is plain concatenation (exact)
+            fmt = lz.as_string()
+            parts = fmt.split('%s')
+            if len(parts) == len(args) + 1 and '%' not in ''.join(parts):
+                pieces = []
+                for i, p_ in enumerate(parts):
+                    if p_:
+                        pieces.append(z3.StringVal(p_))
+                    if i < len(args):
+                        pieces.append(args[i].z)
+                return SV(STR, z3.Concat(*pieces) if len(pieces) > 1 else pieces[0])
+        # any other '%..' % args : opaque, injectivity not assumed. A function of the operands.
         zs = [l.z] + [a.z for a in args if not isinstance(a, SeqV)]
         f = z3.Function('fmt_' + '_'.join(sort_name(z.sort()) for z in zs), *[z.sort() for z in zs], z3.StringSort())
         return SV(STR, f(*zs))
@@ -593,6 +607,10 @@ class ExprMixin:
             kz = self.coerce(i, kt, st).z
             self.check(st, z3.Select(st.ddom(v.z, sort_of(kt)), kz), 'KeyError', 'key', node)
             res = SV(vt, z3.Select(st.dval(v.z, sort_of(kt), sort_of(vt)), kz))
+            self.assume_typed(res, st, depth=0)
+            return res
+        if k == 'fmap':
+            res = SV(v.ty.args[1], z3.Select(v.z, self.coerce(i, v.ty.args[0], st).z))
             self.assume_typed(res, st, depth=0)
             return res
         if k == 'text':
